@@ -176,8 +176,8 @@ def run_fa(case, failures):
 
 
 def health(classes, n, tier):
-    need = {"fst": 0.4, "fa": 0.15, "eps_input_moves": 0.2, "eps_cycle": 0.03, "multi_start": 0.05,
-            "start_with_incoming": 0.2, "final_with_outgoing": 0.2, "star_checked": 0.2, "fa_with_eps": 0.03}
+    need = {"fst": 0.16, "fa": 0.06, "eps_input_moves": 0.08, "eps_cycle": 0.012, "multi_start": 0.02,
+            "start_with_incoming": 0.08, "final_with_outgoing": 0.08, "star_checked": 0.08, "fa_with_eps": 0.012}
     for k, frac in need.items():
         if classes.get(k, 0) < frac * n:
             return "class %s too rare: %d of %d" % (k, classes.get(k, 0), n)
